@@ -2549,8 +2549,22 @@ def r1011_define_option(P, rep):
             ctx.emit('call', name, args, n.line, r, None)
             return r
         return h
+    # The body is text-processed before it is tokenised (\u/\U escapes are decoded in place, on a private copy).  Contract cuts: strdup(s) is a fresh
+    # writable string with the text of s; convert_universal_chars(p) rewrites *p in place and is the identity on text without a backslash (its loop copies
+    # every byte that does not start a \u/\U escape), so for the clauses below the text of its argument stays the text it had.
+    DECODER = 'convert_universal_chars'
+    du, dec = P.find_function(DECODER)
+    if dec is not None and ((dec.type or '').split('(')[0].strip() != 'void' or len([c for c in dec.inner if c.kind == 'ParmVarDecl']) != 1):
+        rep.undecided('R10.11', '%s:%s:installs' % (U, fn), '%s is no longer an in-place pass over one string: its contract cut does not apply' % DECODER, where=where)
+        return
+
+    def h_strdup(it, ctx, n, args):
+        r = Sym(ctx.fresh('strdup'), 'char *')
+        ctx.emit('call', 'strdup', args, n.line, r, None)
+        return r
     it = PPInterp(P, pu, {'cut': {'new_file': rec('new_file', lambda ctx: Obj('File', lazy=True, label='file')),
                                   'tokenize': rec('tokenize', lambda ctx: Obj('Token', lazy=True, label='body-tokens')),
+                                  'strdup': h_strdup, DECODER: rec(DECODER, lambda ctx: None),
                                   'add_macro': rec('add_macro', lambda ctx: Obj('Macro', lazy=True, label='macro')),
                                   'hashmap_put': rec('hashmap_put', lambda ctx: None), 'hashmap_put2': rec('hashmap_put2', lambda ctx: None)},
                           'lazy_field': hook, 'loop_limit': 2})
@@ -2560,7 +2574,27 @@ def r1011_define_option(P, rep):
     except Unsupported as e:
         rep.undecided('R10.11', '%s:%s:installs' % (U, fn), 'cannot interpret define_macro: %s' % e, where=where)
         return
+    # reference: the text of a file is decoded by tokenize_file() before new_file() takes it; callers of define_macro that pass string literals
+    file_text_decoded = None
+    fu, tf = P.find_function('tokenize_file')
+    if tf is not None and dec is not None:
+        file_text_decoded = bool(tf.calls(DECODER))
+        if not file_text_decoded:
+            file_text_decoded = None
+    literal_bodies = None
+    for un in (U, 'main.c'):
+        if un not in P.unit_names:
+            continue
+        for fname, fd in sorted(P.unit(un).functions.items()):
+            k = 0
+            for c in fd.calls(fn):
+                a = c.args()
+                if len(a) > 1 and a[1].strip_all().kind == 'StringLiteral':
+                    k += 1
+            if k and (literal_bodies is None or k > literal_bodies[1]):
+                literal_bodies = ('%s()' % fname, k)
     fails = {}
+    unknown = {}
     nret = 0
     for ctx, out in res:
         if out[0] != 'ret':
@@ -2583,13 +2617,48 @@ def r1011_define_option(P, rep):
         else:
             f = settle(it, src[0][2][0]) if src[0][2] else None
             mk = [e for e in nf if e[4] is f]
-            if not mk or len(mk[0][2]) < 3 or mk[0][2][2] is not a_buf:
+            text = mk[0][2][2] if mk and len(mk[0][2]) >= 3 else None
+            pos = {id(e): i for i, e in enumerate(ctx.events)}
+            # the string handed to new_file: the body itself, or a strdup copy of it (copies of copies followed).  chain = [(string, index of the event
+            # up to which a pass over that string still reaches the tokenised text)]: the tokenize call for the string itself, the copying strdup for its source
+            chain, cur, limit = [], text, pos[id(src[0])]
+            for _ in range(8):
+                chain.append((cur, limit))
+                cp = [e for e in calls(ctx, 'strdup') if e[4] is cur and e[2]]
+                if not cp:
+                    break
+                cur, limit = cp[0][2][0], pos[id(cp[0])]
+            if text is None or cur is not a_buf:
                 fails.setdefault('body-is-the-tokenised-text', 'the text that is tokenised for the replacement list is not the body text given to define_macro')
+                continue
+            # every pass over that text before it is tokenised: only the decoder (the identity on text without a backslash, by contract) is known
+            touched = [(e, s) for e in ctx.events if e[0] == 'call' and e[1] not in ('strdup', 'new_file') for s, lim in chain
+                       if pos[id(e)] < lim and any(a is s for a in e[2])]
+            other = sorted(set(e[1] for e, s in touched if e[1] != DECODER))
+            if other:
+                unknown.setdefault('installs', 'the body text is handed to %s() before it is tokenised: what text remains is not known' % ', '.join(other))
+                continue
+            if file_text_decoded is None:
+                unknown.setdefault('body-ucn-decoded-like-file-text', 'tokenize_file() does not hand the text of a file to %s(): where a file gets its \\u/\\U decoding, '
+                                   'and so what a -D body must get, was not found' % DECODER)
+            elif not touched:
+                fails.setdefault('body-ucn-decoded-like-file-text', 'the body is tokenised without the \\u/\\U decoding: -DM="\\u00e9" then defines another string than '
+                                 '`#define M "\\u00e9"` in a file, whose text tokenize_file() decodes with %s()' % DECODER)
+            if any(s is a_buf for e, s in touched) and literal_bodies:
+                fails.setdefault('body-decoded-in-a-private-copy', '%s() rewrites the string given to define_macro in place, and %s passes string literals (%d calls)'
+                                 % (DECODER, literal_bodies[0], literal_bodies[1]))
     if nret == 0 and not fails:
         rep.undecided('R10.11', '%s:%s:installs' % (U, fn), 'define_macro has no returning path', where=where)
         return
-    for k in ('accepts-every-body', 'one-macro', 'under-the-given-name', 'object-like', 'body-is-the-tokenised-text'):
-        rep.ob('R10.11', '%s:%s:%s' % (U, fn, k), k not in fails, fails.get(k, ''), where=where)
+    if 'installs' in unknown:
+        rep.undecided('R10.11', '%s:%s:installs' % (U, fn), unknown['installs'], where=where)
+        return
+    for k in ('accepts-every-body', 'one-macro', 'under-the-given-name', 'object-like', 'body-is-the-tokenised-text', 'body-ucn-decoded-like-file-text',
+              'body-decoded-in-a-private-copy'):
+        if k in unknown and k not in fails:
+            rep.undecided('R10.11', '%s:%s:%s' % (U, fn, k), unknown[k], where=where)
+        else:
+            rep.ob('R10.11', '%s:%s:%s' % (U, fn, k), k not in fails, fails.get(k, ''), where=where)
 
 
 # ------------------------------------------------------------------------------------------------ R10.12
